@@ -202,5 +202,15 @@ pub fn make_cfg(fp: &FriParams) -> Cfg {
 pub type Backend = FriRecursionBackendForExt<D, WIDTH, RATE, Poseidon2Config>;
 
 pub fn make_backend() -> Backend {
-    FriRecursionBackend::<WIDTH, RATE, _>::new(P2).for_extension_degree::<D>()
+    make_backend_with(&[])
+}
+
+/// The backend with `extras` registered, in order, through `with_extra_poseidon2_table`
+/// (the backend-variant axis, see `variants.rs`). No extras = the plain backend.
+pub fn make_backend_with(extras: &[Poseidon2Config]) -> Backend {
+    let mut b = FriRecursionBackend::<WIDTH, RATE, _>::new(P2);
+    for e in extras {
+        b = b.with_extra_poseidon2_table(*e);
+    }
+    b.for_extension_degree::<D>()
 }
